@@ -57,6 +57,7 @@ class Profile:
         self.partial_prefix = ""  # e.g. "snippets/"
         self.partial_suffix = ""  # e.g. ".html"
         self.partial_interrupts = False  # break/continue inside partial bodies (C03 only)
+        self.partial_kw_shadow = False  # keyword argument named like the bound variable's root (C03 only)
         self.__dict__.update(kw)
 
 
@@ -659,6 +660,11 @@ class Gen:
                 nm = self.name_for(ty)
                 kwargs.append((nm, self.prim(ty, env, loop)))
                 e2[nm] = ty
+            if self.p.partial_kw_shadow and mode and isinstance(arg, M.Var) and r.random() < 0.5:
+                # the bound variable's root name is also a keyword argument of the tag
+                lty = {"ints": "ints", "strs": "strs"}.get(env.get(arg.root, ""), None)
+                val = (self.var_of(lty, env) or arg) if lty else self.prim(r.choice(["int", "str"]), env, loop)
+                kwargs.append((arg.root, val))
             self.partials[name] = []  # reserve the name
             pb = self.body(depth + 1, e2, bool(self.p.partial_interrupts), tag == "render" or isolated,
                            n=r.randint(1, 4))
